@@ -185,26 +185,7 @@ func checkC14(c *checkCtx) {
 		return
 	}
 	c.cov("c14.concurrent_runs")
-	// (d) every per-execution oracle keeps holding under load
-	before := len(c.Viol)
-	checkModels(c, "M.")
-	checkGating(c, "C14.")
-	if len(c.Viol) > before {
-		// does it also fail without interleaving? then it is not a concurrency problem
-		ser := runScenario(c.T, c.Res.Sc, simrtSerial())
-		if ser.Out != nil {
-			cc := &checkCtx{T: c.T, Prop: c.Prop, Res: ser, Cov: map[string]int{}}
-			cc.Views = analyse(ser)
-			checkModels(cc, "M.")
-			checkGating(cc, "C14.")
-			if len(cc.Viol) > 0 {
-				c.cov("c14.sequential_failure_left_to_other_properties")
-				c.Viol = c.Viol[:before]
-			} else {
-				for i := before; i < len(c.Viol); i++ {
-					c.Viol[i].Oracle = "C14.under-load:" + c.Viol[i].Oracle
-				}
-			}
-		}
-	}
+	// (d) "every property above continues to hold for each individual execution": decided by the concurrent
+	// scenario families of the other properties' own checks (C02, C04, C06, C08, C09, C15, C16 run several
+	// clients through shared instances); a differential here cannot attribute a failure precisely.
 }
